@@ -244,3 +244,66 @@ def correspondence(multi, res, raw):
         for r, c, txt in l5.compare_sheet(ms, os_, check_extra=True)[:6]:
             out.append(f"sheet {ms['name']!r} cell ({r},{c}): {txt}")
     return out
+
+
+# ----------------------------------------------------------------------------- shrinking of a failing input
+_shrunk = {"n": 0}
+
+
+def _persisting(cands, pred):
+    """run the candidates in parallel, return those on which the violation persists"""
+    if not cands:
+        return []
+    res = l5.run_workers([{"multi": m, "generator": "rp2_full_report"} for m in cands])
+    keep = []
+    for m, r in zip(cands, res):
+        try:
+            if pred(m, r):
+                keep.append(m)
+        except Exception:  # noqa: BLE001  (an oracle tripping over a degenerate candidate is not a persisting violation)
+            pass
+    return keep
+
+
+def shrink(multi, pred, max_shrinks=2):
+    """greedy reduction of a failing multi-asset input: drop assets, cut each asset's history from the end (a prefix in
+    time of a valid history is valid), drop window bounds, schedule entries.  pred(multi, worker_result) -> violation persists."""
+    import copy
+    if _shrunk["n"] >= max_shrinks:
+        return multi
+    _shrunk["n"] += 1
+    cur = copy.deepcopy(multi)
+    for _ in range(4):                                   # assets
+        if len(cur["assets"]) <= 1:
+            break
+        cands = []
+        for k in range(len(cur["assets"])):
+            m = copy.deepcopy(cur)
+            del m["assets"][k]
+            cands.append(m)
+        ok = _persisting(cands, pred)
+        if not ok:
+            break
+        cur = ok[0]
+    for k in range(len(cur["assets"])):                  # histories
+        c = cur["assets"][k]
+        rows = sorted(all_rows(c), key=lambda r: r["ts"][0])
+        cands = []
+        for n in range(1, len(rows)):
+            keep = {id(r) for r in rows[:n]}
+            m = copy.deepcopy(cur)
+            for key in ("ins", "outs", "intras"):
+                m["assets"][k][key] = [copy.deepcopy(r) for r in c[key] if id(r) in keep]
+            if m["assets"][k]["ins"]:
+                cands.append(m)
+        ok = _persisting(cands[:24], pred)
+        if ok:
+            cur = ok[0]
+    for key in ("to", "from"):                           # window
+        if cur.get(key) is not None:
+            m = copy.deepcopy(cur)
+            m[key] = None
+            if _persisting([m], pred):
+                cur = m
+    cur["shrunk_from"] = core.case_hash(multi)
+    return cur
